@@ -170,6 +170,11 @@ Rakp1Vectors ==
                 { [id |-> "RAKP1/dec/" \o ToString(n) \o "-" \o ToString(p) \o (IF lk THEN "L" ELSE "N") \o ToString(hi), prop |-> "C08", kind |-> "decode", layer |-> "RAKPMessage1",
                    class |-> "ok", bytes |-> R1Enc(r), exp |-> [err |-> FALSE, value |-> Without(R1Fields(r), {"Username"})]] })
           : n \in 0..32, p \in {0, 1, 4, 5, 15}, lk \in BOOLEAN, hi \in 0..2 }
+  \* lengths around every multiple of 256 (a length kept in one byte wraps): all must be rejected
+  \cup { LET r == [tag |-> 7, sid |-> RBytes(n, 4), rnd |-> RBytes(n + 5, 16), priv |-> 4, lookup |-> TRUE, uname |-> [i \in 1..n |-> 97 + (i % 26)]] IN
+         [id |-> "RAKP1/ser/long-" \o ToString(n), prop |-> "C06", kind |-> "serialize", layer |-> "RAKPMessage1", class |-> "username-too-long",
+          fields |-> R1Fields(r), payload |-> <<>>, exp |-> [err |-> TRUE]]
+         : n \in {33, 64, 127, 128, 200, 254, 255, 256, 257, 260, 264, 271, 272, 273, 300, 511, 512, 513, 520, 528, 529, 768, 1024, 1030, 4096, 4100, 65536, 65540} }
 
 \* ------------------------------------------------------- set-up responses (C07)
 OsrEnc(o) == <<o.tag, 0, o.priv, 0>> \o o.sidM \o o.sidC \o AlgPayload(0, o.a) \o AlgPayload(1, o.i) \o AlgPayload(2, o.c)
